@@ -80,6 +80,8 @@ fn main() {
         #[cfg(feature = "db")]
         "c10conc" => conc::run_c10(&args),
         #[cfg(feature = "db")]
+        "c11conc" => conc::run_c11(&args),
+        #[cfg(feature = "db")]
         "lmdb-probe" => {
             conc::lmdb_probe(&args);
             return;
@@ -130,6 +132,16 @@ fn main() {
                 "C08" => c08::replay(payload, &mut rep),
                 "C19" => c19::replay(payload, &mut rep),
                 "C20" => c20::replay(payload, &mut rep),
+                #[cfg(feature = "db")]
+                "C11" if payload["kind"] == "c11-schedule" => {
+                    let mut a = util::Args { cmd: "c11conc".into(), kv: args.kv.clone(), pos: vec![] };
+                    let _ = a.kv.insert("seed".into(), v["seed"].as_u64().unwrap_or(1).to_string());
+                    let r = conc::run_c11(&a);
+                    rep.evaluations += r.evaluations;
+                    for f in r.findings {
+                        rep.finding_for(&f.prop, &f.signature, &f.detail, f.replay);
+                    }
+                }
                 #[cfg(feature = "db")]
                 "C10" if payload["kind"] == "c10-schedule" => {
                     let mut a = util::Args { cmd: "c10conc".into(), kv: args.kv.clone(), pos: vec![] };
